@@ -956,4 +956,42 @@ theorem expectSame_suffix (fs0 : Fields) (vs0 : List Val) : ∀ (fs : Fields) (v
   | [], _ :: _, h, _, _ => by simp [hasFields] at h
   | _ :: _, [], h, _, _ => by simp [hasFields] at h
 
+theorem lookupVal_none_of_not_mem : ∀ (fs : Fields) (vs : List Val) (i : Nat), i ∉ liveIdxs fs → lookupVal fs vs i = none
+  | [], vs, _, _ => by cases vs <;> rfl
+  | (a, t) :: fs, [], _, _ => rfl
+  | (a, t) :: fs, v :: vs, i, h => by
+    cases hs : a.skip
+    · have h' : i ≠ a.idx ∧ i ∉ liveIdxs fs := by simpa [liveIdxs, hs] using h
+      have hb : (a.idx == i) = false := by simpa using (fun e => h'.1 e.symm)
+      simp [lookupVal, hs, hb, lookupVal_none_of_not_mem fs vs i h'.2]
+    · have h' : i ∉ liveIdxs fs := by simpa [liveIdxs, hs] using h
+      simp [lookupVal, hs, lookupVal_none_of_not_mem fs vs i h']
+
+/-- the row of a variant after its index has been matched (the `body` of `decVars`). -/
+def varBody (e : EAttr) (va : VAttr) (fs : Fields) : Dec (List Val) :=
+  match va.shape with
+  | .unit =>
+      if e.indexOnly then pure []
+      else do tagCheck va.tag; Dec.skip; pure []
+  | _ => do tagCheck va.tag; fieldsDec (va.enc.getD (e.enc.getD .array)) (decFields fs)
+
+theorem decVars_cons (e : EAttr) (va : VAttr) (fs : Fields) (rest : Variants) :
+    decVars e ((va, fs) :: rest) = ⟨va, varBody e va fs⟩ :: decVars e rest := by
+  simp only [decVars, varBody]
+  rfl
+
+theorem acceptedVars_mem (e : EAttr) : ∀ (us : Variants) (vb : VAttr) (gs : Fields), acceptedVars e us = true → (vb, gs) ∈ us →
+    vb.idx < U32 ∧ tagOk vb.tag = true ∧ acceptedFields gs = true ∧ (liveIdxs gs).Nodup ∧
+    (vb.shape = .unit → gs = []) ∧ (e.indexOnly = true → vb.shape = .unit)
+  | [], _, _, _, h => by simp at h
+  | (va, fs) :: rest, vb, gs, ha, h => by
+    simp only [acceptedVars, Bool.and_eq_true, decide_eq_true_eq] at ha
+    obtain ⟨⟨⟨⟨⟨⟨hidx, htag⟩, hacc⟩, hnd⟩, hunit⟩, hio⟩, hrest⟩ := ha
+    rcases List.mem_cons.1 h with e1 | h
+    · cases e1
+      refine ⟨hidx, htag, hacc, C08.nodupNat_nodup _ hnd, ?_, ?_⟩
+      · intro hs; simpa [hs] using hunit
+      · intro hi; simpa [hi] using hio
+    · exact acceptedVars_mem e rest vb gs hrest h
+
 end Minicbor.Derive
